@@ -15,6 +15,7 @@ import (
 	"strconv"
 	"strings"
 	"sync"
+	"sync/atomic"
 	"time"
 
 	"github.com/folbricht/desync"
@@ -243,7 +244,8 @@ func runC14(cfg Config) {
 	os.RemoveAll(idir)
 	os.MkdirAll(idir, 0755)
 	is, _ := desync.NewLocalIndexStore(idir)
-	its := httptest.NewServer(desync.NewHTTPIndexHandler(is, true, ""))
+	c14IndexHandler := desync.NewHTTPIndexHandler(is, true, "")
+	its := httptest.NewServer(c14IndexHandler)
 	defer its.Close()
 	for it := 0; it < cfg.N(40, 800); it++ {
 		idx := genIndex(rng)
@@ -294,12 +296,86 @@ func runC14(cfg Config) {
 		}
 	}
 
+	// (c2) index transfer over HTTP when the first f attempts fail transiently (503, 500, connection
+	// reset): within the retry budget the caller must not see the failure, and the index arrives
+	{
+		var failLeft int32
+		var mode int32
+		flaky := http.HandlerFunc(func(w http.ResponseWriter, r *http.Request) {
+			if atomic.AddInt32(&failLeft, -1) >= 0 {
+				switch atomic.LoadInt32(&mode) {
+				case 0:
+					io.Copy(io.Discard, r.Body)
+					w.WriteHeader(503)
+				case 1:
+					w.WriteHeader(500)
+				default:
+					if hj, ok := w.(http.Hijacker); ok {
+						if c, _, err := hj.Hijack(); err == nil {
+							c.Close()
+						}
+					}
+				}
+				return
+			}
+			c14IndexHandler.ServeHTTP(w, r)
+		})
+		fts := httptest.NewServer(flaky)
+		fts.Config.SetKeepAlivesEnabled(false)
+		const budget = 4
+		for it := 0; it < cfg.N(30, 400); it++ {
+			idx := genIndex(rng)
+			ok := algForFlags(idx.Index.FeatureFlags) == "sha512" && (len(idx.Chunks) == 0 || idx.Chunks[0].Size > 0)
+			for _, c := range idx.Chunks {
+				if c.Start+c.Size < c.Start || c.Size > idx.Index.ChunkSizeMax {
+					ok = false
+				}
+			}
+			if !ok {
+				continue
+			}
+			u, _ := url.Parse(fts.URL + "/")
+			cl, err := desync.NewRemoteHTTPIndexStore(u, desync.StoreOptions{ErrorRetry: budget, ErrorRetryBaseInterval: 0})
+			if err != nil {
+				fatal(err)
+			}
+			f := rng.Intn(budget + 2) // ErrorRetry = budget means budget attempts in all (theorem retry_bound)
+			md := rng.Intn(3)
+			name := fmt.Sprintf("flaky%d.caibx", it)
+			caseLine := fmt.Sprintf("index.http.retry name=%s failures=%d kind=%d budget=%d", name, f, md, budget)
+			rep.Count(caseLine, f > 0, "index-http-retry")
+			atomic.StoreInt32(&mode, int32(md))
+			atomic.StoreInt32(&failLeft, int32(f))
+			err = cl.StoreIndex(name, idx)
+			atomic.StoreInt32(&failLeft, 0)
+			if f < budget && err != nil {
+				monitor(fmt.Sprintf("StoreIndex over HTTP failed although only %d of %d attempts failed transiently: %v", f, budget, err), caseLine)
+				continue
+			}
+			if err != nil {
+				continue
+			}
+			if f >= budget {
+				monitor(fmt.Sprintf("StoreIndex reported success although all %d attempts failed", budget), caseLine)
+			}
+			atomic.StoreInt32(&failLeft, int32(f))
+			got, err := cl.GetIndex(name)
+			atomic.StoreInt32(&failLeft, 0)
+			if f < budget && (err != nil || indexStr(got) != indexStr(idx)) {
+				monitor(fmt.Sprintf("GetIndex over HTTP after %d transient failures: %v / index changed", f, err), caseLine)
+			}
+		}
+		fts.Close()
+	}
+
 	// (d) casync protocol over pipes against the real server
 	for it := 0; it < cfg.N(40, 800); it++ {
 		dir := filepath.Join(cfg.Work, "pstore")
 		os.RemoveAll(dir)
 		os.MkdirAll(dir, 0755)
-		ls, _ := desync.NewLocalStore(dir, desync.StoreOptions{})
+		// the upstream store of the server: either on-disk format, verifying or not
+		upUnc, upSkip := rng.Intn(2) == 0, rng.Intn(3) == 0
+		ls, _ := desync.NewLocalStore(dir, desync.StoreOptions{Uncompressed: upUnc, SkipVerify: upSkip})
 		var have [][]byte
 		for k := 0; k < 1+rng.Intn(4); k++ {
 			d := randBytes(rng, 1+rng.Intn(300))
@@ -316,7 +392,7 @@ func runC14(cfg Config) {
 			monitor("protocol handshake failed: "+err.Error(), "protocol")
 			continue
 		}
-		caseLine := fmt.Sprintf("protocol it=%d chunks=%d", it, len(have))
+		caseLine := fmt.Sprintf("protocol it=%d chunks=%d upstream-uncompressed=%v upstream-skipverify=%v", it, len(have), upUnc, upSkip)
 		rep.Count(caseLine, true, "protocol")
 		for k := 0; k < 8; k++ {
 			if rng.Intn(2) == 0 { // a missing chunk — possibly several in a row
